@@ -3,6 +3,7 @@
 //! Exit codes: 0 = ran to completion (verdicts are in the output files; the `check` driver decides),
 //! 2 = tool error. This binary never prints VIOLATION lines itself.
 
+mod disk;
 mod gate;
 mod hybrid;
 mod inflight;
@@ -157,6 +158,36 @@ fn hybrid_replay(args: &[String]) {
     replay_generic(args, &|| hybrid::HybridRunner::new(&cfg, &hcfg), hybrid::nontrivial);
 }
 
+/// Image-level workloads: one JSON object {"ops": [...]} per line; the whole recorded trace is written
+/// (there is nothing to compare against here: TLC judges the trace).
+fn disk_run(args: &[String]) {
+    let cfg = load_cfg(args);
+    let hpath = arg(args, "--hcfg").unwrap_or_else(|| die("--hcfg missing"));
+    let hcfg: hybrid::HybridCfg =
+        serde_json::from_str(&std::fs::read_to_string(&hpath).unwrap_or_else(|e| die(format!("{hpath}: {e}"))))
+            .unwrap_or_else(|e| die(format!("{hpath}: {e}")));
+    let scripts_path = arg(args, "--scripts").unwrap_or_else(|| die("--scripts missing"));
+    let trace_path = arg(args, "--trace").unwrap_or_else(|| die("--trace missing"));
+    let text = std::fs::read_to_string(&scripts_path).unwrap_or_else(|e| die(format!("{scripts_path}: {e}")));
+    let mut w = std::io::BufWriter::new(std::fs::File::create(&trace_path).unwrap_or_else(|e| die(format!("{trace_path}: {e}"))));
+    let mut events = 0;
+    let mut probes = 0;
+    let mut n = 0;
+    for (i, line) in text.lines().filter(|l| !l.trim().is_empty()).enumerate() {
+        let script: J = serde_json::from_str(line).unwrap_or_else(|e| die(format!("script {i}: {e}")));
+        let mut run = disk::DiskRun::new(&cfg, &hcfg).unwrap_or_else(|e| die(format!("script {i}: {e}")));
+        for op in script["ops"].as_array().unwrap_or_else(|| die("script without ops")) {
+            run.apply(op).unwrap_or_else(|e| die(format!("script {i}: {op}: {e}")));
+        }
+        let (e, p) = run.finish(&mut w, i).unwrap_or_else(|e| die(format!("write: {e}")));
+        events += e;
+        probes += p;
+        n += 1;
+    }
+    w.flush().unwrap_or_else(|e| die(format!("flush: {e}")));
+    println!("{}", json!({"scripts": n, "events": events, "probes": probes}));
+}
+
 fn load_cfg(args: &[String]) -> mem::MemCfg {
     let cfg_path = arg(args, "--cfg").unwrap_or_else(|| die("--cfg missing"));
     let cfg: mem::MemCfg =
@@ -240,6 +271,10 @@ fn replay_generic<E: Engine>(args: &[String], make: &(dyn Fn() -> Result<E, Stri
         .filter_map(|(_, o)| o.mismatch.as_ref().filter(|m| relevant(m)).map(|m| m["ops"].to_string()))
         .collect();
     let is_root = |m: &J| -> bool {
+        // a mismatch in mechanism-only components is drift: counted, never a candidate
+        if !relevant(m) {
+            return false;
+        }
         let ops = m["ops"].as_array().cloned().unwrap_or_default();
         (2..ops.len()).all(|n| !mis_ops.contains(&J::Array(ops[..n].to_vec()).to_string()))
     };
@@ -359,6 +394,7 @@ fn main() {
         Some("mem-random") => mem_random(&args[2..]),
         Some("inflight-replay") => inflight_replay(&args[2..]),
         Some("hybrid-replay") => hybrid_replay(&args[2..]),
+        Some("disk-run") => disk_run(&args[2..]),
         _ => die("usage: harness <mem-replay> ..."),
     }
 }
